@@ -658,6 +658,18 @@ theorem fake_ranges_contiguous {φ : Type} [DecidableEq φ] (names : List φ) (s
     congr 1; omega
   rw [← hl]; exact hc
 
+/-- … **volume `k` has the range `[k·nz, k·nz + nz)`**: the running counter of `parse_filenames_data` and the closed form
+`idx * num_slices` are the same thing (every generated volume has `nz` slices) … -/
+theorem fake_ranges_closed_form {φ : Type} [DecidableEq φ] (names : List φ) (seeds : List Nat) (nz k : Nat)
+    (hnd : names.Nodup) (hk : k < names.length) :
+    (fakeBuild names seeds nz).vols[k]? = some (names[k], k * nz, k * nz + nz) := by
+  have hr : ((readable (names.map fun f => (f, some nz))).map (·.1)) = names := by
+    rw [readable_all_some, List.map_map]; exact List.map_id' _
+  have h2 := (parse_spec (names.map fun f => (f, some nz)) none (by rw [hr]; exact hnd)).2.1
+  show (parseFilenames (names.map fun f => (f, some nz)) none).vols[k]? = _
+  rw [h2, readable_all_some]
+  simpa using volsFrom_const_getElem? names nz 0 k hk
+
 /-- … the names the dataset generates itself (`base00001, base00002, …`, whenever the number of given names differs
 from `sample_size`) **are** distinct, for any injective numbering … -/
 theorem fake_renamed_names_nodup {φ : Type} (given : List φ) (n : Nat) (mk : φ → Nat → φ)
@@ -818,6 +830,7 @@ example : blobRequests ⟨4, 3, 30⟩ = [.uniformN 12, .normalN 24, .normalN 24,
 example : blobArgs [3, 6, 5] 4 0 = ⟨4, 3, 30⟩ := by decide
 example : fakeNames [(7 : Nat)] 2 (fun b k => b * 100000 + k) = .ok [700001, 700002] := by rfl
 example : (fakeBuild [(1 : Nat), 2] [10, 11] 3).vols = [(1, 0, 3), (2, 3, 6)] := by decide
+example : (fakeBuild [(1 : Nat), 2] [10, 11] 3).vols[1]? = some (2, 1 * 3, 1 * 3 + 3) := by decide
 example : fakeIndex (fakeBuild [(1 : Nat), 2] [10, 11] 3) (-1) = .ok (2, 2, 11) := by rfl
 example : [(1 : Nat), 2].Nodup ∧ (1 : Nat) < [(1 : Nat), 2].length ∧ (2 : Nat) < 3 := by decide
 example : sheppIndex 4 2 = .ok (2, 2, 2) := by rfl
